@@ -22,3 +22,21 @@ def para_obs(p):
 
 def paras_obs(c):
     return [para_obs(p) for p in c.paragraphs]
+
+
+# Documents that take the recovery paths (merge of free text, fold of an empty License with the text after it, renamed
+# repeats).  `prelude()` parses them and throws the results away: what a later document parses to must not depend on
+# what was parsed before it in the same process (no state shared between results).
+SLOPPY = ['Format: U\n\nFiles: *\nCopyright: 1999 J\nLicense: GPL-2+\n\nLicense:\n\nThis program is free software\n',
+          'zz-free text\n\nzz-more text\n\nLicense:\n\nzz-leftover\n\nFiles: a\nFiles: b\nCopyright:\n',
+          'Files: *\nCopyright: zz-x\nComment:\n\n zz-absorbed\n\nLicense: zz-name\n\nzz-not folded\n']
+
+
+def prelude():
+    for t in SLOPPY:
+        try:
+            c = cr.DebianCopyright.from_text(t)
+            c.to_dict()
+            c.dumps()
+        except Exception:
+            pass
